@@ -5,47 +5,68 @@ Sub-checks
                and every small configuration; every operation of a small alphabet is applied in every reachable
                state and compared with the reference model (return value, eviction report, sizes, LRU->MRU order,
                membership, stats) plus the structural invariants (bounds, byte accounting, disabled when 0).
-  machines   : Hypothesis RuleBasedStateMachine per container, long random sequences, larger alphabets, injected clock.
-  threads    : real threads on ThreadSafeCache(LRUCache) / ThreadSafeBytesCache(LRUBytes) with a tiny switch interval
-               and a settrace hook that yields the GIL at generated lines inside the container code. Oracles are
-               schedule independent: no exception, structural consistency, bounds, no lost update, counter totals,
-               and (small histories) a linearizability search against the reference model.
-  merge      : merge_caches_deterministic vs the reference merge, independence of the worker *list* order,
-               assert_equal raises exactly on conflicts, workers untouched.
+               Every capacity cap is explored over >= cap+1 keys; the clock is driven through the engine's own
+               injection path (ctx.now_ms -> logical_now_s -> holder -> logical_time_fn) from logical time 0, lands
+               exactly on age == ttl, jumps far beyond the default ttl and (depth-bounded) steps back; values include
+               None; every LRUCache constructor spelling with explicit zeros; the lock wrappers in front of all three
+               wrappable caches with a counting lock handed to the constructor.
+  machines   : Hypothesis RuleBasedStateMachine per container, long random sequences, larger alphabets and capacities,
+               keys of mixed types (1 / "1" / (1, 2) / "(1, 2)" / [1, 2] / "" / 0 / unhashable tuples), falsy values.
+  threads    : real threads on ThreadSafeCache(LRUCache | DeterministicLRU) / ThreadSafeBytesCache(LRUBytes) with a
+               tiny switch interval and a settrace hook that yields the GIL at generated lines inside the container
+               code. Oracles are schedule independent: no exception, structural consistency, bounds, no lost update,
+               counter totals, and (small histories) a linearizability search against the reference model.
+  merge      : merge_caches_deterministic vs the reference merge (LRUCache / DeterministicLRU targets, bare and lock
+               wrapped; six kinds of worker caches incl. TTL workers holding expired entries; None values; repeated
+               worker ids), independence of the worker *list* order, assert_equal raises exactly on conflicts,
+               workers untouched.
+  clock      : table over logical_now_s / logical_time_fn (0, sub-second, negative, callable, absent, custom key).
 
+An exception escaping a container method on a generated (in-domain) input is reported as a violation.
 Reference models: harness/models/lru.py (ordered lists written from the docstrings).
 """
 from __future__ import annotations
 
 import itertools
+import operator
 import random
 import sys
 import threading
 import time
+import types
 
 from harness.runner import Sub, Violation, run_hypothesis, run_machine, digest
 from harness.models.lru import (Conflict, RefCacheManager, RefDetLRU, RefFIFOSet, RefLRUBytes, RefLRUCache, RefRing,
                                 RefTTL, Undefined, ref_merge, stable)
 
 LEVEL = "exploration"
-RULE = ("exhaustive: every (reachable state, operation) pair of each container/configuration over keys {a,b,c[,d]}, "
-        "costs {0,1,2,5,-1}, capacities {0..3}, byte caps {0,3,5}, TTL {0,2} with clock advances {0.75,3}; distinct by "
-        "construction (memoised on model+implementation state); non-trivial = the operation evicts / expires / is "
-        "rejected as oversize, or it starts from a state where a bound is tight (container full or holding an expired entry). machines: Hypothesis rule-based sequences (<=200 steps, 8 keys, "
-        "larger caps/costs, unhashable keys for the TTL caches); non-trivial = >=1 eviction or expiry; distinct = "
-        "digest(config, op list). threads: generated per-thread programmes; non-trivial = >=2 threads touch a common "
-        "key; distinct = digest(programme). merge: generated worker caches; non-trivial = >=2 workers share a key.")
+RULE = ("exhaustive: every (reachable state, operation) pair of each container/configuration over keys {a,b,c[,d,e]} "
+        "(at least cap+1 keys per capacity), costs {0,1,2,5,-1}, capacities {0..3}, byte caps {0,3,5}, TTL {0,2} with "
+        "clock advances {0.75, 2.0 (== ttl), 3, 1000} and, to a fixed depth, -3; values {None,1}; all LRUCache "
+        "constructor spellings; lock wrappers with a counting lock; distinct by construction (memoised on "
+        "model+implementation state); non-trivial = the operation evicts / expires / is rejected as oversize, or it "
+        "starts from a state where a bound is tight (container full or holding an expired entry). machines: Hypothesis "
+        "rule-based sequences (<=200 steps, 8 int keys + mixed-type keys, larger caps/costs, unhashable keys for the TTL "
+        "caches, clock steps back / far jumps); non-trivial = >=1 eviction or expiry; distinct = digest(config, op "
+        "list). threads: generated per-thread programmes; non-trivial = >=2 threads touch a common key; distinct = "
+        "digest(programme). merge: generated worker caches; non-trivial = >=2 workers share a key. clock: table rows.")
 ASSUMPTIONS = [
     "reference models in harness/models/lru.py are the documented semantics (docstrings, docs/m9/cache_safety.md)",
     "LRUBytes: a single zero cap means that dimension is unbounded; only both caps zero disables (docstring + the "
     "stages' `max_entries > 0 or max_bytes > 0` construction guard)",
     "negative byte costs are undocumented: only the structural invariants are required for such a put, the model "
     "then resynchronises on the observed contents; negative capacities are outside the validated config domain",
-    "TTL is lazy (applied on reads, as documented); the undocumented boundary age == ttl is never generated "
-    "(clock advances are multiples of 0.75, ttls are not multiples of 3)",
+    "TTL is lazy (applied on reads, as documented). Whether age == ttl exactly is alive is not documented: the check "
+    "asks _NamespaceCache.get once per process and requires every other TTL read path (LRUCache.__contains__/items, "
+    "CacheManager.get) to follow the same rule; an entry stamped in the future (clock stepped back) is not expired",
     "CacheManager.max_entries bounds each namespace separately (_NamespaceCache: 'Per-namespace LRU cache')",
     "DedupeRing.discard: exact membership only for the first discard of a key; afterwards only contains => "
     "physically in the window, refcount <= physical count, len <= k (documentation does not define more)",
+    "lock wrappers: 'does not change semantics of the underlying cache, only serializes access' is read as: results "
+    "equal the bare cache's, and every access to the inner cache (incl. lazy items() iteration) happens while the "
+    "lock passed as `lock=` is held; the lock object handed in only needs acquire/release/__enter__/__exit__",
+    "container methods do not raise on in-domain inputs (hashable keys where the signature says Hashable/K, "
+    "JSON-able unhashable keys for LRUCache/CacheManager, any iterable for DedupeRing.extend)",
     "thread sub-check samples OS schedules (perturbed by a settrace GIL-yield hook); its oracles hold for every "
     "linearizable execution, so they cannot flake, but absence of a race is only evidence, not proof",
     "the memoisation key reads private fields (_q,_map,_bytes,_d,_set,_ref) only to identify implementation states",
@@ -64,27 +85,283 @@ def _eq(what: str, got, want, sig: str):
         raise Mismatch(f"{what}: implementation {got!r}, reference model {want!r}", sig)
 
 
-class Clock:
-    """The injected clock. It starts at logical time 0.0 (a turn's `now` may be the epoch) and is handed to the
-    containers through the engine's own injection helper, clematis.engine.cache.logical_time_fn(holder); the reference
-    models read the holder directly (`ref_time`), so the helper is under test as well."""
+def _guarded(what, fn, *args):
+    """Call into the code under test. The operations generated here are all inside the documented input domain, and
+    the property quantifies over every operation sequence: an exception escaping a container method therefore is a
+    violation (the operation has no outcome), not a harness error. Lazy results are materialised inside the guard."""
+    try:
+        res = fn(*args)
+        if isinstance(res, types.GeneratorType) or hasattr(res, "__next__"):
+            res = list(res)
+        return res
+    except Mismatch:
+        raise
+    except Exception as e:  # noqa: BLE001 - anything the container raises
+        raise Mismatch(f"{what}{args!r} raised {type(e).__name__}: {e}", "raises")
 
-    def __init__(self, t0: float = 0.0):
+
+class _Guard:
+    """Proxy around a container: public methods / properties / len / `in` go through `_guarded`; private attributes
+    (read only by invariants and memoisation keys) are passed through."""
+
+    def __init__(self, obj):
+        self.__dict__["_o"] = obj
+
+    def __getattr__(self, name):
+        o = self.__dict__["_o"]
+        if name.startswith("_"):
+            return getattr(o, name)
+        a = _guarded(f"{type(o).__name__}.{name}", getattr, o, name)
+        if not callable(a):
+            return a
+        return lambda *args: _guarded(f"{type(o).__name__}.{name}", a, *args)
+
+    def __len__(self):
+        return _guarded("len", len, self.__dict__["_o"])
+
+    def __contains__(self, k):
+        return _guarded("__contains__", operator.contains, self.__dict__["_o"], k)
+
+
+def _dk(k):
+    """Key spec -> key. JSON (replay files) cannot carry tuples, so a tuple key travels as {"__t__": [...]}; every
+    other JSON value is the key itself (lists and dicts are deliberately unhashable keys for the TTL caches)."""
+    if isinstance(k, dict) and len(k) == 1 and "__t__" in k:
+        return tuple(_dk(x) for x in k["__t__"])
+    return k
+
+
+def _is_unhashable(k):
+    try:
+        hash(k)
+        return False
+    except TypeError:
+        return True
+
+
+class Clock:
+    """The injected clock, driven the way the turn pipeline drives it: the logical time lives on a context object as
+    `ctx.now_ms` (int, float or a callable), clematis.engine.cache.logical_now_s(ctx) converts it to seconds into a
+    holder dict, and the containers read the holder through clematis.engine.cache.logical_time_fn(holder). It starts
+    at logical time 0 (a turn's `now` may be the epoch). The reference models read `ref_time` (plain ms / 1000)."""
+
+    def __init__(self, mode: str = "int"):
         from clematis.engine.cache import logical_time_fn
 
-        self.holder = {"now_s": t0}
+        self.mode = mode
+        self.ms = 0
+        self.holder = {}
         self.time = logical_time_fn(self.holder)
+        self._push()
+
+    def _push(self) -> None:
+        from clematis.engine.cache import logical_now_s
+
+        ms = self.ms
+        if self.mode == "direct":
+            self.holder["now_s"] = float(ms) / 1000.0
+            return
+        nm = float(ms) if self.mode == "float" else ((lambda: ms) if self.mode == "call" else ms)
+        self.holder["now_s"] = _guarded("logical_now_s", logical_now_s, types.SimpleNamespace(now_ms=nm))
+
+    def advance(self, seconds: float) -> None:
+        self.ms += int(round(seconds * 1000))
+        self._push()
 
     @property
     def t(self) -> float:
-        return self.holder["now_s"]
-
-    @t.setter
-    def t(self, v: float) -> None:
-        self.holder["now_s"] = v
+        return float(self.ms) / 1000.0
 
     def ref_time(self) -> float:
-        return float(self.holder["now_s"])
+        return float(self.ms) / 1000.0
+
+
+_POLICY = {}
+
+
+def ttl_inclusive() -> bool:
+    """No docstring says whether an entry whose age is EXACTLY the ttl is still alive. The check therefore does not
+    pick a side: it asks `_NamespaceCache.get` (the primitive every TTL container delegates to) once per process and
+    then requires every other TTL read path (LRUCache.__contains__, LRUCache.items, CacheManager.get, ...) to follow
+    the same rule ("TTL and LRU semantics match the new implementation")."""
+    if "v" not in _POLICY:
+        from clematis.engine.cache import _NamespaceCache
+
+        t = [0.0]
+        try:
+            c = _NamespaceCache(2, 2, lambda: t[0])
+            c.set("p", 1)
+            t[0] = 2.0
+            _POLICY["v"] = not bool(c.get("p")[0])
+        except Exception:  # noqa: BLE001 - a broken primitive is reported by the sequence checks
+            _POLICY["v"] = False
+    return _POLICY["v"]
+
+
+class RefTTLb(RefTTL):
+    """RefTTL with the boundary rule (age == ttl) as a parameter, see ttl_inclusive()."""
+
+    def __init__(self, max_entries, ttl, clock, inclusive=False):
+        super().__init__(max_entries, ttl, clock)
+        self.inclusive = bool(inclusive)
+
+    def expired(self, ent) -> bool:
+        if self.ttl <= 0:
+            return False
+        age = self.clock() - ent[2]
+        return age >= self.ttl if self.inclusive else age > self.ttl
+
+    def n_boundary(self) -> int:
+        return sum(1 for e in self.order if self.ttl > 0 and (self.clock() - e[2]) == self.ttl)
+
+
+class RefLRUCacheb(RefLRUCache):
+    def __init__(self, max_entries, ttl, clock, inclusive=False):
+        super().__init__(max_entries, ttl, clock)
+        self.ns = RefTTLb(max_entries, ttl, clock, inclusive)
+
+
+class RefCacheManagerb(RefCacheManager):
+    def __init__(self, max_entries, ttl, clock, inclusive=False):
+        super().__init__(max_entries, ttl, clock)
+        self.inclusive = bool(inclusive)
+
+    def _get_ns(self, name, create):
+        for n, obj in self.ns:
+            if n == name:
+                return obj
+        if not create:
+            return None
+        obj = RefTTLb(self.max, self.ttl, self.clock, self.inclusive)
+        self.ns.append([name, obj])
+        return obj
+
+
+# ---------------------------------------------------------------------------------- lock wrappers (sequential view)
+
+
+class _SpyLock:
+    """The lock handed to a wrapper's constructor (`lock=`): a real RLock that also counts. Truthy on purpose."""
+
+    def __init__(self):
+        self._l = threading.RLock()
+        self.depth = 0
+        self.acquired = 0
+
+    def acquire(self, *a, **k):
+        r = self._l.acquire(*a, **k)
+        if r:
+            self.depth += 1
+            self.acquired += 1
+        return r
+
+    def release(self):
+        self.depth -= 1
+        self._l.release()
+
+    def __enter__(self):
+        self.acquire()
+        return self
+
+    def __exit__(self, *exc):
+        self.release()
+
+
+class _SpyInner:
+    """Stands between a wrapper and the real cache and notes every access made while the wrapper's lock is not held
+    (lazily produced items() are noted element by element). Snapshot lists are passed through unchanged."""
+
+    def __init__(self, inner, lock):
+        self._inner = inner
+        self._lock = lock
+        self.unheld = []
+
+    def _note(self, what):
+        if self._lock.depth <= 0:
+            self.unheld.append(what)
+
+    def get(self, *a):
+        self._note("get")
+        return self._inner.get(*a)
+
+    def put(self, *a):
+        self._note("put")
+        return self._inner.put(*a)
+
+    def __contains__(self, k):
+        self._note("__contains__")
+        return k in self._inner
+
+    def __len__(self):
+        self._note("__len__")
+        return len(self._inner)
+
+    def items(self):
+        self._note("items")
+        res = self._inner.items()
+        if isinstance(res, (list, tuple)):
+            return res
+        return self._lazy(iter(res))
+
+    def _lazy(self, it):
+        while True:
+            self._note("items (lazy iteration)")
+            try:
+                x = next(it)
+            except StopIteration:
+                return
+            yield x
+
+    def __getattr__(self, name):
+        self._note(name)
+        return getattr(self._inner, name)
+
+
+class Front:
+    """ThreadSafeCache / ThreadSafeBytesCache in front of a raw cache, single-threaded: the wrappers "do not change
+    semantics of the underlying cache, only serialize access" - so every result must be the model's result for the
+    raw cache, and (mode 'spy', lock passed in) every access to the inner cache must happen under that lock."""
+
+    def __init__(self, kind, raw, mode):
+        from clematis.engine.cache import ThreadSafeBytesCache, ThreadSafeCache
+
+        W = ThreadSafeBytesCache if kind == "bytes" else ThreadSafeCache
+        self.mode = mode
+        if mode == "spy":
+            self.lock = _SpyLock()
+            self.spy = _SpyInner(raw, self.lock)
+            self.w = W(self.spy, lock=self.lock)
+        elif mode == "spy-pos":  # lock as second positional argument
+            self.lock = _SpyLock()
+            self.spy = _SpyInner(raw, self.lock)
+            self.w = W(self.spy, self.lock)
+        else:  # 'own': the wrapper creates its own lock
+            self.lock = self.spy = None
+            self.w = W(raw)
+
+    def call(self, name, *args):
+        w = self.w
+        before = self.lock.acquired if self.lock is not None else 0
+        if self.spy is not None:
+            del self.spy.unheld[:]
+        if name == "contains":
+            res = _guarded("wrapper.__contains__", lambda k: k in w, *args)
+        else:
+            res = _guarded(f"wrapper.{name}", getattr(w, name), *args)
+        if self.spy is not None:
+            if self.spy.unheld:
+                raise Mismatch(f"wrapper.{name}{args!r}: the inner cache was accessed ({', '.join(self.spy.unheld[:3])}) "
+                               "while the wrapper's lock was not held", "wrap-unlocked")
+            if self.lock.depth != 0:
+                raise Mismatch(f"wrapper.{name}{args!r}: lock still held after the call (depth {self.lock.depth})", "wrap-lock-leak")
+            if self.lock.acquired == before:
+                raise Mismatch(f"wrapper.{name}{args!r} never acquired the lock the wrapper was constructed with", "wrap-unlocked")
+        return res
+
+
+def _mk_front(kind, raw, cfg):
+    mode = cfg.get("wrap")
+    return Front(kind, raw, mode) if mode else None
 
 
 # =================================================================================================
@@ -98,7 +375,8 @@ class PairBase:
     def __init__(self, cfg):
         self.cfg = cfg
         self.flags = set()  # 'evict', 'expire', 'reject', 'undefined', ...
-        self.universe = list(cfg.get("keys", []))
+        self.universe = [_dk(k) for k in cfg.get("keys", [])]
+        self.front = None
 
     def _see(self, k):
         if k not in self.universe:
@@ -115,6 +393,17 @@ class PairBase:
         raise NotImplementedError
 
 
+def _key_labels(k):
+    out = []
+    if isinstance(k, tuple):
+        out.append("tuple-key")
+    if _is_unhashable(k):
+        out.append("unhashable-key")
+    if k in ("", 0) and not isinstance(k, bool):
+        out.append("falsy-key")
+    return out
+
+
 # ------------------------------------------------------------------------------- LRUBytes
 
 
@@ -126,7 +415,12 @@ class PBytes(PairBase):
         from clematis.engine.util.lru_bytes import LRUBytes
 
         self.ev = []
-        self.impl = LRUBytes(cfg["me"], cfg["mb"], on_evict=lambda k, v, c: self.ev.append((k, v, c)))
+        kw = {"on_evict": lambda k, v, c: self.ev.append((k, v, c))}
+        if cfg.get("k2s") == "repr":
+            kw["key_to_str"] = repr
+        raw = LRUBytes(cfg["me"], cfg["mb"], **kw)
+        self.impl = _Guard(raw)
+        self.front = _mk_front("bytes", raw, cfg)
         self.ref = RefLRUBytes(cfg["me"], cfg["mb"])
 
     def invariants(self):
@@ -157,6 +451,13 @@ class PBytes(PairBase):
             _eq(f"contains({k!r})", c.contains(k), r.contains(k), "contains")
             _eq(f"{k!r} in cache", k in c, r.contains(k), "contains")
 
+    def _call(self, name, *args):
+        if self.front is not None:
+            return self.front.call(name, *args)
+        if name == "contains":
+            return args[0] in self.impl
+        return getattr(self.impl, name)(*args)
+
     def step(self, op, check=True):
         c, r = self.impl, self.ref
         name = op[0]
@@ -165,8 +466,12 @@ class PBytes(PairBase):
         del r.evictions[:]
         if name == "put":
             _, k, v, cost = op
+            k = _dk(k)
             self._see(k)
-            got = c.put(k, v, cost)
+            labels += _key_labels(k)
+            if v is None:
+                labels.append("none-value")
+            got = self._call("put", k, v, cost)
             try:
                 want = r.put(k, v, cost)
             except Undefined:
@@ -186,16 +491,28 @@ class PBytes(PairBase):
                 _eq(f"put({k!r}, cost={cost}) return", got, want, "put-return")
                 _eq("eviction report (on_evict calls, in order)", list(self.ev), list(r.evictions), "evict-report")
         elif name == "get":
-            k = op[1]
+            k = _dk(op[1])
             self._see(k)
-            got, want = c.get(k), r.get(k)
+            got, want = self._call("get", k), r.get(k)
             if check:
                 _eq(f"get({k!r})", got, want, "get")
+        elif name == "contains":
+            k = _dk(op[1])
+            self._see(k)
+            got, want = self._call("contains", k), r.contains(k)
+            if check:
+                _eq(f"{k!r} in cache", got, want, "contains")
+        elif name == "items":
+            got, want = self._call("items"), r.items()
+            if check:
+                _eq("items() LRU->MRU", list(got), want, "order")
         elif name == "clear":
             c.clear()
             r.clear()
         else:
             raise ValueError(op)
+        if self.front is not None:
+            labels.append("wrapped")
         if check:
             self.invariants()
             self.observe()
@@ -220,6 +537,17 @@ def _age_class(now, ts, ttl):
     return "x" if a > ttl else a
 
 
+def _ttl_labels(ref_objs, name):
+    """labels for a TTL read: an entry sits exactly on the boundary (age == ttl) / in the future (clock went back)."""
+    out = []
+    for o in ref_objs:
+        if o.ttl > 0 and o.n_boundary():
+            out.append("age==ttl")
+        if o.ttl > 0 and any((o.clock() - e[2]) < 0 for e in o.order):
+            out.append("age<0")
+    return out
+
+
 class PNs(PairBase):
     family = "nscache"
 
@@ -227,9 +555,9 @@ class PNs(PairBase):
         super().__init__(cfg)
         from clematis.engine.cache import _NamespaceCache
 
-        self.clock = Clock()
-        self.impl = _NamespaceCache(cfg["max"], cfg["ttl"], self.clock.time)
-        self.ref = RefTTL(cfg["max"], cfg["ttl"], self.clock.ref_time)
+        self.clock = Clock(cfg.get("clk", "int"))
+        self.impl = _Guard(_NamespaceCache(cfg["max"], cfg["ttl"], self.clock.time))
+        self.ref = RefTTLb(cfg["max"], cfg["ttl"], self.clock.ref_time, ttl_inclusive())
 
     def invariants(self):
         if self.impl.size() > max(0, self.cfg["max"]):
@@ -245,6 +573,10 @@ class PNs(PairBase):
         labels = []
         if name == "set":
             _, k, v = op
+            k = _dk(k)
+            labels += _key_labels(k)
+            if v is None:
+                labels.append("none-value")
             got, want = c.set(k, v), r.set(k, v)
             if want:
                 self.flags.add("evict")
@@ -252,8 +584,9 @@ class PNs(PairBase):
             if check:
                 _eq(f"set({k!r}) evicted count", got, want, "set-return")
         elif name == "get":
-            k = op[1]
+            k = _dk(op[1])
             nexp = r.n_expired()
+            labels += _ttl_labels([r], name)
             got, want = c.get(k), r.get(k)
             if r.n_expired() < nexp:
                 self.flags.add("expire")
@@ -261,7 +594,8 @@ class PNs(PairBase):
             if check:
                 _eq(f"get({k!r})", tuple(got), want, "get")
         elif name == "adv":
-            self.clock.t += op[1]
+            self.clock.advance(op[1])
+            labels.append("clock-back" if op[1] < 0 else ("clock-jump" if op[1] >= 600 else "adv"))
         elif name == "invalidate":
             got, want = c.invalidate(), r.invalidate()
             if check:
@@ -284,10 +618,12 @@ class PNs(PairBase):
 # ------------------------------------------------------------------------------- LRUCache
 
 
-_CTORS = ["ttl_s", "ttl_sec", "ttl", "capacity"]
+_CTORS = ["ttl_s", "ttl_sec", "ttl", "capacity", "positional", "cap+ttl_sec", "cap+ttl", "nones"]
 
 
 def _mk_lrucache(cfg, time_fn):
+    """Every documented constructor spelling ("accepts legacy and new constructor params: max_entries/capacity,
+    ttl_s/ttl_sec/ttl"); the explicit value - including an explicit 0 - must be the effective one."""
     from clematis.engine.cache import LRUCache
 
     mx, ttl, ctor = cfg["max"], cfg["ttl"], cfg.get("ctor", "ttl_s")
@@ -299,6 +635,14 @@ def _mk_lrucache(cfg, time_fn):
         return LRUCache(max_entries=mx, ttl=ttl, time_fn=time_fn)
     if ctor == "capacity":  # explicit `capacity` is preferred over the default max_entries
         return LRUCache(capacity=mx, ttl_s=ttl, time_fn=time_fn)
+    if ctor == "positional":
+        return LRUCache(mx, ttl, time_fn=time_fn)
+    if ctor == "cap+ttl_sec":
+        return LRUCache(capacity=mx, ttl_sec=ttl, time_fn=time_fn)
+    if ctor == "cap+ttl":
+        return LRUCache(capacity=mx, ttl=ttl, time_fn=time_fn)
+    if ctor == "nones":  # the other spellings passed explicitly as None (= not given)
+        return LRUCache(max_entries=mx, ttl_s=None, ttl_sec=ttl, ttl=None, capacity=None, time_fn=time_fn)
     raise ValueError(ctor)
 
 
@@ -307,9 +651,11 @@ class PLru(PairBase):
 
     def __init__(self, cfg):
         super().__init__(cfg)
-        self.clock = Clock()
-        self.impl = _mk_lrucache(cfg, self.clock.time)
-        self.ref = RefLRUCache(cfg["max"], cfg["ttl"], self.clock.ref_time)
+        self.clock = Clock(cfg.get("clk", "int"))
+        raw = _guarded("LRUCache", _mk_lrucache, cfg, self.clock.time)
+        self.impl = _Guard(raw)
+        self.front = _mk_front("lru", raw, cfg)
+        self.ref = RefLRUCacheb(cfg["max"], cfg["ttl"], self.clock.ref_time, ttl_inclusive())
 
     def invariants(self):
         if len(self.impl) > max(0, self.cfg["max"]):
@@ -324,15 +670,21 @@ class PLru(PairBase):
 
     def step(self, op, check=True):
         c, r = self.impl, self.ref
+        f = self.front
         name = op[0]
         labels = []
         nexp = r.ns.n_expired()
-        if len(op) > 1 and isinstance(op[1], (list, dict)):
-            labels.append("unhashable-key")
+        if len(op) > 1 and name != "adv":
+            k = _dk(op[1])
+            labels += _key_labels(k)
+        if name in ("get", "get2", "contains", "items"):
+            labels += _ttl_labels([r.ns], name)
         if name in ("set", "put"):
-            _, k, v = op
+            v = op[2]
+            if v is None:
+                labels.append("none-value")
             ev0 = r.evicted
-            got = getattr(c, name)(k, v)
+            got = f.call("put", k, v) if f is not None else getattr(c, name)(k, v)
             r.set(k, v)
             if r.evicted > ev0:
                 self.flags.add("evict")
@@ -340,26 +692,24 @@ class PLru(PairBase):
             if check:
                 _eq(f"{name}({k!r}) return", got, None, "set-return")
         elif name == "get":
-            k = op[1]
-            got, want = c.get(k), r.get(k)
+            got, want = (f.call("get", k) if f is not None else c.get(k)), r.get(k)
             if check:
                 _eq(f"get({k!r})", got, want, "get")
         elif name == "get2":
-            k = op[1]
             got, want = c.get2(k), r.get2(k)
             if check:
                 _eq(f"get2({k!r})", tuple(got), want, "get")
         elif name == "contains":
-            k = op[1]
-            got, want = (k in c), r.contains(k)
+            got, want = (f.call("contains", k) if f is not None else (k in c)), r.contains(k)
             if check:
                 _eq(f"{k!r} in cache", got, want, "contains")
         elif name == "items":
-            got, want = list(c.items()), r.items()
+            got, want = list(f.call("items") if f is not None else c.items()), r.items()
             if check:
                 _eq("items() (TTL pruned, oldest->newest)", got, want, "order")
         elif name == "adv":
-            self.clock.t += op[1]
+            self.clock.advance(op[1])
+            labels.append("clock-back" if op[1] < 0 else ("clock-jump" if op[1] >= 600 else "adv"))
         elif name in ("invalidate", "clear"):
             got, want = getattr(c, name)(), r.invalidate()
             if check:
@@ -369,6 +719,8 @@ class PLru(PairBase):
         if name in ("get", "get2", "contains", "items") and r.ns.n_expired() < nexp:
             self.flags.add("expire")
             labels.append("expire")
+        if f is not None:
+            labels.append("wrapped")
         if check:
             self.invariants()
             self.observe()
@@ -394,9 +746,13 @@ class PMgr(PairBase):
         super().__init__(cfg)
         from clematis.engine.cache import CacheManager
 
-        self.clock = Clock()
-        self.impl = CacheManager(max_entries=cfg["max"], ttl_sec=cfg["ttl"], time_fn=self.clock.time)
-        self.ref = RefCacheManager(cfg["max"], cfg["ttl"], self.clock.ref_time)
+        self.clock = Clock(cfg.get("clk", "int"))
+        if cfg.get("ctor") == "positional":
+            raw = CacheManager(cfg["max"], cfg["ttl"], self.clock.time)
+        else:
+            raw = CacheManager(max_entries=cfg["max"], ttl_sec=cfg["ttl"], time_fn=self.clock.time)
+        self.impl = _Guard(raw)
+        self.ref = RefCacheManagerb(cfg["max"], cfg["ttl"], self.clock.ref_time, ttl_inclusive())
 
     def invariants(self):
         for name, ns in self.impl._ns.items():
@@ -417,10 +773,13 @@ class PMgr(PairBase):
         name = op[0]
         labels = []
         nexp = sum(o.n_expired() for _, o in r.ns)
-        if len(op) > 2 and isinstance(op[2], (list, dict)):
-            labels.append("unhashable-key")
+        if len(op) > 2:
+            k = _dk(op[2])
+            labels += _key_labels(k)
         if name == "set":
-            _, ns, k, v = op
+            ns, v = op[1], op[3]
+            if v is None:
+                labels.append("none-value")
             ev0 = r.evicted
             got = c.set(ns, k, v)
             r.set(ns, k, v)
@@ -430,7 +789,8 @@ class PMgr(PairBase):
             if check:
                 _eq("set() return", got, None, "set-return")
         elif name == "get":
-            _, ns, k = op
+            ns = op[1]
+            labels += _ttl_labels([o for _, o in r.ns], name)
             got, want = c.get(ns, k), r.get(ns, k)
             if sum(o.n_expired() for _, o in r.ns) < nexp:
                 self.flags.add("expire")
@@ -438,7 +798,8 @@ class PMgr(PairBase):
             if check:
                 _eq(f"get({ns!r}, {k!r})", tuple(got), want, "get")
         elif name == "adv":
-            self.clock.t += op[1]
+            self.clock.advance(op[1])
+            labels.append("clock-back" if op[1] < 0 else ("clock-jump" if op[1] >= 600 else "adv"))
         elif name == "inv_ns":
             got, want = c.invalidate_namespace(op[1]), r.invalidate_namespace(op[1])
             if check:
@@ -475,8 +836,10 @@ class PDet(PairBase):
         from clematis.engine.util.lru_det import DeterministicLRU
 
         self.ev = []
-        self.impl = DeterministicLRU(cfg["cap"], update_on_get=cfg["ug"], update_on_put=cfg["up"],
-                                     on_evict=lambda k, v: self.ev.append((k, v)))
+        raw = DeterministicLRU(cfg["cap"], update_on_get=cfg["ug"], update_on_put=cfg["up"],
+                               on_evict=lambda k, v: self.ev.append((k, v)))
+        self.impl = _Guard(raw)
+        self.front = _mk_front("det", raw, cfg)
         self.ref = RefDetLRU(cfg["cap"], cfg["ug"], cfg["up"])
 
     def invariants(self):
@@ -496,31 +859,43 @@ class PDet(PairBase):
 
     def step(self, op, check=True):
         c, r = self.impl, self.ref
+        f = self.front
         name = op[0]
         labels = []
         del self.ev[:]
-        if name == "put":
-            _, k, v = op
+        if len(op) > 1:
+            k = _dk(op[1])
             self._see(k)
-            got, want = c.put(k, v), r.put(k, v)
+            labels += _key_labels(k)
+        if name == "put":
+            v = op[2]
+            if v is None:
+                labels.append("none-value")
+            got, want = (f.call("put", k, v) if f is not None else c.put(k, v)), r.put(k, v)
             if want is not None:
                 self.flags.add("evict")
                 labels.append("evict")
             if check:
-                _eq(f"put({k!r}) evicted", got, want, "put-return")
+                # ThreadSafeCache.put is documented to return None; the eviction is then reported by on_evict only
+                _eq(f"put({k!r}) evicted", got, want if f is None else None, "put-return")
                 _eq("eviction report (on_evict calls)", list(self.ev), [] if want is None else [want], "evict-report")
         elif name == "get":
-            k = op[1]
-            self._see(k)
-            got, want = c.get(k), r.get(k)
+            got, want = (f.call("get", k) if f is not None else c.get(k)), r.get(k)
             if check:
                 _eq(f"get({k!r})", got, want, "get")
         elif name == "getd":
-            _, k, d = op
-            self._see(k)
+            d = op[2]
             got, want = c.get(k, d), r.get(k, d)
             if check:
                 _eq(f"get({k!r}, default={d!r})", got, want, "get")
+        elif name == "contains":
+            got, want = (f.call("contains", k) if f is not None else (k in c)), r.contains(k)
+            if check:
+                _eq(f"{k!r} in cache", got, want, "contains")
+        elif name == "items":
+            got, want = list(f.call("items") if f is not None else c.items()), r.items()
+            if check:
+                _eq("items() LRU->MRU", got, want, "order")
         elif name == "pop":
             got, want = c.pop_lru(), r.pop_lru()
             if want is not None:
@@ -534,6 +909,8 @@ class PDet(PairBase):
             r.clear()
         else:
             raise ValueError(op)
+        if f is not None:
+            labels.append("wrapped")
         if check:
             self.invariants()
             self.observe()
@@ -560,7 +937,7 @@ class PSet(PairBase):
 
     def __init__(self, cfg):
         super().__init__(cfg)
-        self.impl = self._cls()(cfg["cap"])
+        self.impl = _Guard(self._cls()(cfg["cap"]))
         self.ref = RefFIFOSet(cfg["cap"])
 
     def invariants(self):
@@ -583,8 +960,9 @@ class PSet(PairBase):
         name = op[0]
         labels = []
         if name == "add":
-            k = op[1]
+            k = _dk(op[1])
             self._see(k)
+            labels += _key_labels(k)
             got, want = c.add(k), r.add(k)
             if want:
                 self.flags.add("evict")
@@ -627,7 +1005,7 @@ class PRing(PairBase):
         super().__init__(cfg)
         from clematis.engine.util.ring import DedupeRing
 
-        self.impl = DedupeRing(cfg["k"])
+        self.impl = _Guard(DedupeRing(cfg["k"]))
         self.ref = RefRing(cfg["k"])
 
     def invariants(self):
@@ -660,8 +1038,9 @@ class PRing(PairBase):
         name = op[0]
         labels = []
         if name == "add":
-            x = op[1]
+            x = _dk(op[1])
             self._see(x)
+            labels += _key_labels(x)
             full = len(r) >= r.k > 0
             got = c.add(x)
             r.add(x)
@@ -671,15 +1050,18 @@ class PRing(PairBase):
             if check:
                 _eq("add() return", got, None, "add-return")
         elif name == "extend":
-            for x in op[1]:
+            xs = [_dk(x) for x in op[1]]
+            for x in xs:
                 self._see(x)
                 if len(r) >= r.k > 0:
                     self.flags.add("evict")
                     labels.append("evict")
                 r.add(x)
-            c.extend(list(op[1]))
+            how = op[2] if len(op) > 2 else "list"  # extend(xs: Iterable): any iterable, also a one-shot generator
+            labels.append(f"extend-{how}" + ("-empty" if not xs else ("-over-k" if len(xs) > r.k > 0 else "")))
+            c.extend((x for x in xs) if how == "gen" else (tuple(xs) if how == "tuple" else list(xs)))
         elif name == "discard":
-            x = op[1]
+            x = _dk(op[1])
             self._see(x)
             c.discard(x)
             want = r.discard(x)
@@ -711,14 +1093,24 @@ def _norm_op(op):
     return list(op)
 
 
+def _mk_pair(family, cfg):
+    try:
+        return PAIRS[family](cfg)
+    except Mismatch:
+        raise
+    except Exception as e:  # noqa: BLE001 - a documented constructor spelling must be accepted
+        raise Mismatch(f"constructing the container raised {type(e).__name__}: {e}", "raises")
+
+
 def run_sequence(case, check=True):
-    pair = PAIRS[case["family"]](case["cfg"])
-    for i, op in enumerate(case["ops"]):
-        try:
+    i, op = -1, "<construct>"
+    try:
+        pair = _mk_pair(case["family"], case["cfg"])
+        for i, op in enumerate(case["ops"]):
             pair.step(_norm_op(op), check=check)
-        except Mismatch as e:
-            raise Violation(f"[{case['family']} {case['cfg']}] after op #{i} {op!r}: {e.msg}", case,
-                            f"{case['family']}:{e.sig}")
+    except Mismatch as e:
+        raise Violation(f"[{case['family']} {case['cfg']}] after op #{i} {op!r}: {e.msg}", case,
+                        f"{case['family']}:{e.sig}")
     return pair
 
 
@@ -731,44 +1123,96 @@ def replay_sequence(case):
 # =================================================================================================
 
 ADV = [0.75, 3.0]
+ADV_TTL = [0.75, 2.0, 3.0]  # 2.0 == the ttl of the exhaustive configurations: puts an entry exactly on the boundary
+ADV_NOTTL = [0.75, 1000.0]  # ttl == 0: the clock must have no effect, not even far beyond the default ttl (600 s)
 COSTS = [0, 1, 2, 5, -1]
+_KEYS = ["a", "b", "c", "d", "e", "f"]
+_CLK = ["int", "float", "call"]
+
+
+def _bval(k, c):
+    return None if c == 0 else f"{k}{c}"  # zero-cost entries carry the value None
 
 
 def small_space(nkeys, deep=False):
-    """-> list of (family, cfg, ops). deep: one more capacity, one more byte cap and cost."""
-    keys = ["a", "b", "c", "d"][:nkeys]
+    """-> list of (family, cfg, ops). Every capacity `cap` is explored over at least cap+1 keys, so that a full
+    container meets a new key (the TTL containers: in their ttl == 0 configuration, whose state space has no ages).
+    deep: one more capacity, one more byte cap and cost."""
     out = []
     caps = (0, 1, 2, 3, 4) if deep else (0, 1, 2, 3)
     costs = COSTS + [3] if deep else COSTS
+
+    def kk(cap, base=nkeys):
+        return _KEYS[:max(base, cap + 1)]
+
     for me in caps:
         for mb in ((0, 3, 5, 8) if deep else (0, 3, 5)):
-            ops = [["put", k, f"{k}{c}", c] for k in keys for c in costs] + [["get", k] for k in keys] + [["clear"]]
+            keys = kk(me)
+            # 4 keys: fewer costs keep the closure small (without a byte cap the cost only feeds the accounting)
+            cs = costs if len(keys) <= (4 if deep else 3) else ([0, 2, 5, -1] if mb else [0, 2, -1])
+            ops = [["put", k, _bval(k, c), c] for k in keys for c in cs] + [["get", k] for k in keys] + [["clear"]]
             out.append(("lrubytes", {"me": me, "mb": mb, "keys": keys}, ops))
+    # one put that has to evict three entries needs four keys: a1 b1 c1 d1, then a (cost 5 == max_bytes) again
+    keys = _KEYS[:4]
+    ops = [["put", k, _bval(k, c), c] for k in keys for c in (0, 1, 5)] + [["get", keys[0]]]
+    out.append(("lrubytes", {"me": 0, "mb": 5, "keys": keys}, ops))
+    for me, mb in ((2, 0), (0, 3), (2, 3)):  # through ThreadSafeBytesCache, lock handed in
+        keys = _KEYS[:3]
+        ops = ([["put", k, _bval(k, c), c] for k in keys for c in (0, 2, 5)] + [["get", k] for k in keys]
+               + [["contains", k] for k in keys[:2]] + [["items"]])
+        out.append(("lrubytes", {"me": me, "mb": mb, "keys": keys, "wrap": "spy", "k2s": "repr"}, ops))
+    i = 0
     for mx in caps:
         for ttl in (0, 2):
-            adv = [["adv", d] for d in ADV]  # also with ttl == 0: the clock must then have no effect
-            ops = [["set", k, v] for k in keys for v in (0, 1)] + [["get", k] for k in keys] + adv + [["invalidate"]]
-            out.append(("nscache", {"max": mx, "ttl": ttl, "keys": keys}, ops))
-            ops = ([["set", k, v] for k in keys for v in (0, 1)] + [["put", keys[0], 2]] + [["get", k] for k in keys]
-                   + [["get2", k] for k in keys[:2]] + [["contains", k] for k in keys] + [["items"]] + adv
-                   + [["invalidate"], ["clear"]])
-            out.append(("lrucache", {"max": mx, "ttl": ttl, "ctor": _CTORS[(mx + ttl) % len(_CTORS)], "keys": keys}, ops))
-            mkeys = keys[:max(2, nkeys - 1)]  # namespace n1: several keys, two values; n2: one key, one value
-            ops = ([["set", "n1", k, v] for k in mkeys for v in (0, 1)] + [["set", "n2", keys[0], 0]]
+            i += 1
+            keys = kk(mx) if ttl == 0 else _KEYS[:nkeys]
+            adv = [["adv", d] for d in (ADV_TTL if ttl else ADV_NOTTL)]
+            clk = _CLK[i % 3]
+            vals = (None,) if (ttl and mx >= (4 if deep else 3)) else (None, 1)  # ages x values: one value where ages abound
+            ops = [["set", k, v] for k in keys for v in vals] + [["get", k] for k in keys] + adv + [["invalidate"]]
+            out.append(("nscache", {"max": mx, "ttl": ttl, "keys": keys, "clk": clk}, ops))
+            ctors = _CTORS if mx <= 1 else [_CTORS[(mx + ttl + j) % len(_CTORS)] for j in (0, 3)][:2 if mx == 2 else 1]
+            for ctor in ctors:
+                ops = ([["set", k, v] for k in keys for v in vals] + [["put", keys[0], 2]] + [["get", k] for k in keys]
+                       + [["get2", k] for k in keys[:2]] + [["contains", k] for k in keys] + [["items"]] + adv
+                       + [["invalidate"], ["clear"]])
+                out.append(("lrucache", {"max": mx, "ttl": ttl, "ctor": ctor, "keys": keys, "clk": _CLK[(i + 1) % 3]}, ops))
+            mkeys = keys[:max(2, len(keys) - 1)]  # namespace n1: several keys, two values; n2: one key, one value
+            ops = ([["set", "n1", k, v] for k in mkeys for v in vals] + [["set", "n2", keys[0], 0]]
                    + [["get", "n1", k] for k in mkeys] + [["get", "n2", keys[0]]] + adv
                    + [["inv_ns", "n1"], ["inv_ns", "n2"], ["inv_ns", "zz"], ["inv_all"]])
-            out.append(("manager", {"max": mx, "ttl": ttl, "keys": mkeys}, ops))
+            out.append(("manager", {"max": mx, "ttl": ttl, "keys": mkeys, "clk": _CLK[(i + 2) % 3],
+                                    "ctor": "positional" if mx % 2 else "kw"}, ops))
+    # the clock stepping back (a new run on an old state): an entry stamped in the future is not older than its ttl.
+    # Ages then have no lower bound, so this configuration is explored to a fixed depth instead of to closure.
+    keys = _KEYS[:2]
+    ops = ([["set", k, 1] for k in keys] + [["get", keys[0]], ["contains", keys[0]], ["items"], ["adv", 0.75], ["adv", -3.0]])
+    out.append(("lrucache", {"max": 2, "ttl": 2, "ctor": "ttl_s", "keys": keys, "depth": 8 if deep else 6}, ops))
+    for ttl in (0, 2):  # through ThreadSafeCache, lock handed in
+        keys = _KEYS[:3]
+        ops = ([["put", k, v] for k in keys for v in (None, 1)] + [["get", k] for k in keys] + [["contains", k] for k in keys[:2]]
+               + [["items"]] + [["adv", d] for d in (ADV_TTL if ttl else ADV_NOTTL)])
+        out.append(("lrucache", {"max": 2, "ttl": ttl, "ctor": "ttl_s", "keys": keys, "wrap": "spy"}, ops))
     for cap in caps:
         for ug in (True, False):
             for up in (True, False):
-                ops = ([["put", k, v] for k in keys for v in (0, 1)] + [["get", k] for k in keys]
+                keys = kk(cap)
+                ops = ([["put", k, v] for k in keys for v in (None, 1)] + [["get", k] for k in keys]
                        + [["getd", keys[0], 9]] + [["pop"], ["clear"]])
                 out.append(("detlru", {"cap": cap, "ug": ug, "up": up, "keys": keys}, ops))
+    for ug, up, wrap in ((True, True, "spy"), (False, True, "spy-pos"), (True, False, "own")):  # through ThreadSafeCache
+        keys = _KEYS[:3]
+        ops = ([["put", k, v] for k in keys for v in (None, 1)] + [["get", k] for k in keys] + [["contains", k] for k in keys[:2]]
+               + [["items"], ["pop"]])
+        out.append(("detlru", {"cap": 2, "ug": ug, "up": up, "keys": keys, "wrap": wrap}, ops))
     for cap in caps:
+        keys = kk(cap)
         for fam in ("fifoset", "ringlru"):
             out.append((fam, {"cap": cap, "keys": keys}, [["add", k] for k in keys] + [["clear"]]))
+        keys = _KEYS[:nkeys]
         ops = ([["add", k] for k in keys] + [["discard", k] for k in keys] + [["extend", [keys[0], keys[1]]],
-               ["extend", [keys[1], keys[1], keys[0]]], ["clear"]])
+               ["extend", [keys[1], keys[1], keys[0]], "gen"], ["extend", [keys[2], keys[0], keys[0], keys[2]], "tuple"],
+               ["extend", [], "gen"], ["clear"]])
         out.append(("ring", {"k": cap, "keys": keys}, ops))
     return out
 
@@ -776,19 +1220,22 @@ def small_space(nkeys, deep=False):
 def bfs(rec, family, cfg, ops, depth, max_states):
     """Closure over reachable states (first path to a state is kept: BFS => shortest). Every op is checked in every
     expanded state. Returns (states, transitions, closed)."""
-    cls = PAIRS[family]
-    seen = {cls(cfg).state_key()}
+    try:
+        seen = {_mk_pair(family, cfg).state_key()}
+    except Mismatch as e:
+        rec.violation(f"[{family} {cfg}] {e.msg}", {"family": family, "cfg": cfg, "ops": []}, f"{family}:{e.sig}")
+        return 0, 0, False
     frontier = [[]]
     transitions = 0
-    for _d in range(depth):
+    for _d in range(min(depth, cfg.get("depth", depth))):
         nxt = []
         for path in frontier:
             for op in ops:
-                pair = cls(cfg)
-                for o in path:
-                    pair.step(o, check=False)
-                tight = pair.pressure()
                 try:
+                    pair = _mk_pair(family, cfg)
+                    for o in path:
+                        pair.step(o, check=False)
+                    tight = pair.pressure()
                     labels = pair.step(op, check=True)
                 except Mismatch as e:
                     case = {"family": family, "cfg": cfg, "ops": path + [op]}
@@ -841,38 +1288,53 @@ def sub_exhaustive(rec, seed, shard, nshards, nkeys=3, depth=6, max_states=20000
 # =================================================================================================
 
 
+# keys that are easily confused by a normalisation that is not the documented one: int vs its decimal string, a tuple
+# vs its str()/repr() and vs the list with the same elements, the empty string / 0 (falsy), an unhashable tuple.
+_T12 = {"__t__": [1, 2]}
+_MIXKEYS = [0, 1, "0", "1", "", _T12, {"__t__": ["v1", 0]}, "(1, 2)", "[1,2]"]
+_UNHASHABLE = [[1, 2], [2, 1], {"a": 1, "b": 2}, {"b": 2, "a": 1}, [[1], {"x": None}], {"__t__": [1, [2]]}, [1, [2]],
+               {"a": {"y": 1, "x": 2}}, {"a": {"x": 2, "y": 1}}, []]
+
+
 def _strategies(family):
     from hypothesis import strategies as st
 
     keys = st.integers(0, 7)
-    vals = st.integers(0, 3)
-    adv = st.integers(0, 8).map(lambda i: ["adv", i * 0.75])
+    hkeys = st.one_of(keys, keys, st.sampled_from(_MIXKEYS))  # hashable keys of mixed types
+    vals = st.one_of(st.integers(0, 3), st.integers(0, 3), st.sampled_from([None, 0, ""]))
+    # clock: multiples of 0.75 and of 0.5 (ttl 2/5/10 are met exactly by the latter), no move, steps back, far jumps
+    adv = st.one_of(st.integers(0, 8).map(lambda i: ["adv", i * 0.75]), st.integers(0, 8).map(lambda i: ["adv", i * 0.5]),
+                    st.sampled_from([["adv", 0.75]] * 5 + [["adv", -0.75], ["adv", -2.0], ["adv", 600.0], ["adv", 1e7]]))
     ttl = st.sampled_from([2, 0, 5, 0, 10])
-    cap = st.sampled_from([2, 1, 3, 4, 0, 6, 9])
+    cap = st.sampled_from([2, 1, 3, 4, 0, 6, 9, 1000])
+    clk = st.sampled_from(_CLK + ["direct"])
+    wrap = st.sampled_from([None, None, "spy", "own", "spy-pos"])
     if family == "lrubytes":
-        cfg = st.fixed_dictionaries({"me": st.sampled_from([2, 0, 1, 3, 5, 8]), "mb": st.sampled_from([10, 0, 0, 5, 20])})
+        cfg = st.fixed_dictionaries({"me": st.sampled_from([2, 0, 1, 3, 5, 8, 1000]), "mb": st.sampled_from([10, 0, 0, 5, 20, 100000]),
+                                     "wrap": wrap, "k2s": st.sampled_from([None, "repr"])})
         cost = st.one_of(st.integers(0, 12), st.integers(0, 4), st.sampled_from([-1, -3, 0, 21]))
-        return cfg, st.one_of(st.tuples(st.just("put"), keys, st.integers(0, 99), cost).map(list),
-                              st.tuples(st.just("put"), keys, st.integers(0, 99), cost).map(list),
-                              st.tuples(st.just("get"), keys).map(list),
-                              st.tuples(st.just("get"), keys).map(list),
-                              st.sampled_from([["clear"]] + [["get", 0]] * 7))
-    ukeys = st.one_of(keys, keys, st.sampled_from(["s", "t", [1, 2], [2, 1], {"a": 1, "b": 2}, {"b": 2, "a": 1}, [[1], {"x": None}]]))
+        return cfg, st.one_of(st.tuples(st.just("put"), hkeys, st.one_of(st.integers(0, 99), st.none()), cost).map(list),
+                              st.tuples(st.just("put"), hkeys, st.integers(0, 99), cost).map(list),
+                              st.tuples(st.just("get"), hkeys).map(list),
+                              st.tuples(st.just("get"), hkeys).map(list),
+                              st.tuples(st.just("contains"), hkeys).map(list),
+                              st.sampled_from([["clear"]] + [["items"]] * 3 + [["get", 0]] * 4))
+    ukeys = st.one_of(keys, keys, st.sampled_from(["s", "t"] + _MIXKEYS), st.sampled_from(_UNHASHABLE))
     if family == "nscache":
-        cfg = st.fixed_dictionaries({"max": cap, "ttl": ttl})
-        return cfg, st.one_of(st.tuples(st.just("set"), keys, vals).map(list), st.tuples(st.just("set"), keys, vals).map(list),
-                              st.tuples(st.just("get"), keys).map(list), st.tuples(st.just("get"), keys).map(list), adv,
+        cfg = st.fixed_dictionaries({"max": cap, "ttl": ttl, "clk": clk})
+        return cfg, st.one_of(st.tuples(st.just("set"), hkeys, vals).map(list), st.tuples(st.just("set"), hkeys, vals).map(list),
+                              st.tuples(st.just("get"), hkeys).map(list), st.tuples(st.just("get"), hkeys).map(list), adv,
                               st.sampled_from([["invalidate"]] + [["adv", 0.75]] * 9))
     if family == "lrucache":
-        cfg = st.fixed_dictionaries({"max": cap, "ttl": ttl, "ctor": st.sampled_from(_CTORS)})
+        cfg = st.fixed_dictionaries({"max": cap, "ttl": ttl, "ctor": st.sampled_from(_CTORS), "clk": clk, "wrap": wrap})
         return cfg, st.one_of(st.tuples(st.sampled_from(["set", "put"]), ukeys, vals).map(list),
                               st.tuples(st.sampled_from(["set", "put"]), ukeys, vals).map(list),
                               st.tuples(st.sampled_from(["get", "get2", "get", "contains"]), ukeys).map(list),
                               st.tuples(st.sampled_from(["get", "get2", "get", "contains"]), ukeys).map(list), adv,
                               st.sampled_from([["items"]] * 6 + [["invalidate"], ["clear"]]))
     if family == "manager":
-        cfg = st.fixed_dictionaries({"max": cap, "ttl": ttl})
-        ns = st.sampled_from(["t2:semantic", "t2:semantic", "t1"])
+        cfg = st.fixed_dictionaries({"max": cap, "ttl": ttl, "clk": clk, "ctor": st.sampled_from(["kw", "positional"])})
+        ns = st.sampled_from(["t2:semantic", "t2:semantic", "t1", ""])
         mkeys = st.one_of(st.integers(0, 3), st.integers(0, 3), ukeys)
         return cfg, st.one_of(st.tuples(st.just("set"), ns, mkeys, vals).map(list), st.tuples(st.just("set"), ns, mkeys, vals).map(list),
                               st.tuples(st.just("get"), ns, mkeys).map(list), st.tuples(st.just("get"), ns, mkeys).map(list), adv,
@@ -880,22 +1342,25 @@ def _strategies(family):
                               st.sampled_from([["inv_all"], ["inv_ns", "t1"], ["inv_ns", "t2:semantic"], ["inv_ns", "never"]]
                                               + [["adv", 1.5]] * 12))
     if family == "detlru":
-        cfg = st.fixed_dictionaries({"cap": cap, "ug": st.booleans(), "up": st.booleans()})
-        return cfg, st.one_of(st.tuples(st.just("put"), keys, vals).map(list), st.tuples(st.just("put"), keys, vals).map(list),
-                              st.tuples(st.just("get"), keys).map(list), st.tuples(st.just("get"), keys).map(list),
-                              st.tuples(st.just("getd"), keys, st.sampled_from([None, 7])).map(list),
-                              st.sampled_from([["pop"]] * 5 + [["clear"]]))
+        cfg = st.fixed_dictionaries({"cap": cap, "ug": st.booleans(), "up": st.booleans(), "wrap": wrap})
+        return cfg, st.one_of(st.tuples(st.just("put"), hkeys, vals).map(list), st.tuples(st.just("put"), hkeys, vals).map(list),
+                              st.tuples(st.just("get"), hkeys).map(list), st.tuples(st.just("get"), hkeys).map(list),
+                              st.tuples(st.just("getd"), hkeys, st.sampled_from([None, 7])).map(list),
+                              st.tuples(st.just("contains"), hkeys).map(list),
+                              st.sampled_from([["pop"]] * 4 + [["items"]] * 3 + [["clear"]]))
+    skeys = st.one_of(keys, st.integers(0, 20), st.sampled_from(["", "0", "1", "é", "a b"]))
     if family in ("fifoset", "ringlru"):
         cfg = st.fixed_dictionaries({"cap": cap})
-        skeys = st.one_of(keys, st.integers(0, 20))
         return cfg, st.one_of(st.tuples(st.just("add"), skeys).map(list), st.tuples(st.just("add"), skeys).map(list),
                               st.tuples(st.just("add"), skeys).map(list), st.sampled_from([["clear"]] + [["add", 1]] * 9))
     if family == "ring":
         cfg = st.fixed_dictionaries({"k": cap})
-        return cfg, st.one_of(st.tuples(st.just("add"), keys).map(list), st.tuples(st.just("add"), keys).map(list),
-                              st.tuples(st.just("add"), keys).map(list),
-                              st.tuples(st.just("extend"), st.lists(keys, max_size=5)).map(list),
-                              st.tuples(st.just("discard"), keys).map(list),
+        rkeys = st.one_of(keys, keys, st.sampled_from(["", "0", "1"]))
+        return cfg, st.one_of(st.tuples(st.just("add"), rkeys).map(list), st.tuples(st.just("add"), rkeys).map(list),
+                              st.tuples(st.just("add"), rkeys).map(list),
+                              st.tuples(st.just("extend"), st.lists(rkeys, max_size=12),
+                                        st.sampled_from(["list", "gen", "tuple"])).map(list),
+                              st.tuples(st.just("discard"), rkeys).map(list),
                               st.sampled_from([["clear"]] + [["add", 1]] * 9))
     raise ValueError(family)
 
@@ -919,7 +1384,13 @@ def make_machine(family, rec):
         @initialize(cfg=cfg_st)
         def init(self, cfg):
             self.cfg = cfg
-            self.pair = PAIRS[family](cfg)
+            try:
+                self.pair = _mk_pair(family, cfg)
+            except Mismatch as e:
+                self.failed = True
+                v = Violation(f"[{family} {cfg}] {e.msg}", {"family": family, "cfg": cfg, "ops": []}, f"{family}:{e.sig}")
+                type(self)._vx_last["v"] = v
+                raise v
 
         @rule(op=op_st)
         def do(self, op):
@@ -959,7 +1430,7 @@ def sub_machines(rec, seed, shard, nshards, n=10, steps=200, shrink=True):
 # =================================================================================================
 
 _TL = threading.local()
-_TRACED_SUFFIXES = ("clematis/engine/cache.py", "clematis/engine/util/lru_bytes.py")
+_TRACED_SUFFIXES = ("clematis/engine/cache.py", "clematis/engine/util/lru_bytes.py", "clematis/engine/util/lru_det.py")
 
 
 def _make_tracer(p):
@@ -979,7 +1450,7 @@ def _make_tracer(p):
 
 
 def gen_round(rng, small):
-    kind = rng.choice(["lru", "bytes"])
+    kind = rng.choice(["lru", "bytes", "det", "lru", "bytes"])  # det: ThreadSafeCache over a generator-backed items()
     nthreads = rng.choice([2, 2, 3]) if small else rng.choice([2, 3, 4])
     U = rng.randint(1, 3) if small else rng.randint(2, 6)
     tight = rng.random() < (0.7 if small else 0.4)
@@ -988,6 +1459,9 @@ def gen_round(rng, small):
     if kind == "lru":
         cfg["max"] = (rng.randint(0, max(0, U - 1)) if tight else U + rng.randint(0, 2))
         cfg["ttl"] = rng.choice([0, 0, 5])
+    elif kind == "det":
+        cfg["cap"] = (rng.randint(0, max(0, U - 1)) if tight else U + rng.randint(0, 2))
+        cfg["ug"], cfg["up"] = rng.choice([(True, True), (True, True), (False, True), (True, False)])
     else:
         if tight:
             cfg["me"], cfg["mb"] = rng.choice([(rng.randint(1, max(1, U - 1)), 0), (0, rng.randint(2, 6)),
@@ -1020,10 +1494,14 @@ def gen_round(rng, small):
 def _build_wrapped(cfg):
     from clematis.engine.cache import LRUCache, ThreadSafeBytesCache, ThreadSafeCache
     from clematis.engine.util.lru_bytes import LRUBytes
+    from clematis.engine.util.lru_det import DeterministicLRU
 
     clock = Clock()
     if cfg["kind"] == "lru":
         inner = LRUCache(max_entries=cfg["max"], ttl_s=cfg["ttl"], time_fn=clock.time)
+        return ThreadSafeCache(inner), inner, clock
+    if cfg["kind"] == "det":
+        inner = DeterministicLRU(cfg["cap"], update_on_get=cfg["ug"], update_on_put=cfg["up"])
         return ThreadSafeCache(inner), inner, clock
     inner = LRUBytes(cfg["me"], cfg["mb"])
     return ThreadSafeBytesCache(inner), inner, clock
@@ -1032,7 +1510,9 @@ def _build_wrapped(cfg):
 def _ref_for(cfg):
     clock = Clock()
     if cfg["kind"] == "lru":
-        return RefLRUCache(cfg["max"], cfg["ttl"], clock.ref_time)
+        return RefLRUCacheb(cfg["max"], cfg["ttl"], clock.ref_time, ttl_inclusive())
+    if cfg["kind"] == "det":
+        return RefDetLRU(cfg["cap"], cfg["ug"], cfg["up"])
     return RefLRUBytes(cfg["me"], cfg["mb"])
 
 
@@ -1041,7 +1521,8 @@ def _ref_apply(ref, op):
     if name == "put":
         if isinstance(ref, RefLRUBytes):
             return ref.put(op[1], op[2], op[3])
-        return ref.put(op[1], op[2])
+        ref.put(op[1], op[2])
+        return None  # ThreadSafeCache.put -> None whatever the inner cache reports
     if name == "get":
         return ref.get(op[1])
     if name == "contains":
@@ -1204,6 +1685,14 @@ def check_round(case, results, errors, wrapped, inner):
             bad(f"size_bytes()={inner.size_bytes()} but the stored values were put with costs summing to {want_bytes}", "bytes-accounting")
         if len(inner) != len(final):
             bad(f"len()={len(inner)} but items() has {len(final)} entries", "structure")
+    elif kind == "det":
+        cap = cfg["cap"]
+        if len(inner._q) != len(inner._map) or set(inner._q) != set(inner._map):
+            bad(f"recency queue {list(inner._q)!r} and map keys {sorted(inner._map)!r} disagree", "structure")
+        if len(inner._map) > max(0, cap):
+            bad(f"{len(inner._map)} entries exceed cap={cap}", "bound-entries")
+        if len(inner) != len(final):
+            bad(f"len()={len(inner)} but items() has {len(final)} entries", "structure")
     else:
         st_ = inner.stats
         if len(inner) > max(0, cfg["max"]):
@@ -1216,7 +1705,7 @@ def check_round(case, results, errors, wrapped, inner):
             bad(f"stats.size={st_['size']} but items() has {len(final)} entries", "structure")
 
     if case["small"]:
-        fin = (final, inner.size_bytes() if kind == "bytes" else dict(inner.stats))
+        fin = (final, inner.size_bytes() if kind == "bytes" else (len(inner) if kind == "det" else dict(inner.stats)))
         if not linearizable(cfg, progs, results, fin):
             bad("no sequential order of the operations (respecting program order and real-time order) explains the "
                 f"observed results and final state {fin!r}", "not-linearizable")
@@ -1239,7 +1728,7 @@ def linearizable(cfg, progs, results, fin):
             ref = _ref_for(cfg)
             for (t, i) in order:
                 _ref_apply(ref, progs[t][i])
-            want = (ref.items(), ref.total() if kind == "bytes" else ref.stats())
+            want = (ref.items(), ref.total() if kind == "bytes" else (len(ref) if kind == "det" else ref.stats()))
             return want == (norm(fin[0]), fin[1])
         for t in range(n):
             i = idx[t]
@@ -1256,7 +1745,7 @@ def linearizable(cfg, progs, results, fin):
             if norm(got) != norm(results[t][i][2]):
                 continue
             nidx = idx[:t] + (i + 1,) + idx[t + 1:]
-            key = (nidx, repr(ref.snapshot() if kind == "bytes" else (ref.ns.snapshot(), ref.stats())))
+            key = (nidx, repr(ref.snapshot() if kind in ("bytes", "det") else (ref.ns.snapshot(), ref.stats())))
             if key in seen_dead:
                 continue
             if rec_(nidx, order + [(t, i)]):
@@ -1375,6 +1864,8 @@ def replay_threads(case):
 # deterministic merge
 # =================================================================================================
 
+_WKINDS = ["lrucache", "lrubytes", "detlru", "tslru", "tsbytes", "tsdet", "lrucache-ttl"]
+
 
 def merge_cases():
     from hypothesis import strategies as st
@@ -1382,20 +1873,28 @@ def merge_cases():
     @st.composite
     def cases(draw):
         nkeys = draw(st.integers(1, 6))
-        keys = st.integers(0, nkeys - 1)
-        vals = st.integers(0, 2)
+        # multi-digit keys / worker ids: numeric order != order of their decimal strings
+        keys = st.sampled_from(draw(st.sampled_from([[0, 1, 2, 3, 4, 5], [0, 7, 10, 23, 100, 101]]))[:nkeys])
+        vals = st.sampled_from([0, 1, 2, None, 0, 1])
         nworkers = draw(st.integers(0, 4))
-        wkeys = draw(st.lists(st.integers(0, 9), min_size=nworkers, max_size=nworkers, unique=True))
+        # worker ids: mostly distinct; sometimes the same id twice (then only the list order can break the tie)
+        wkeys = draw(st.lists(st.integers(0, 30), min_size=nworkers, max_size=nworkers, unique=draw(st.integers(0, 4)) > 0))
         workers = []
         for wk in wkeys:
-            kind = draw(st.sampled_from(["lrucache", "lrubytes", "detlru", "tslru"]))
-            script = draw(st.lists(st.one_of(st.tuples(st.just("put"), keys, vals).map(list),
-                                             st.tuples(st.just("put"), keys, vals).map(list),
-                                             st.tuples(st.just("get"), keys).map(list)), max_size=8))
-            workers.append({"wkey": wk, "kind": kind, "cap": draw(st.sampled_from([1, 2, 3, 8])), "script": script})
+            kind = draw(st.sampled_from(_WKINDS))
+            ops = [st.tuples(st.just("put"), keys, vals).map(list), st.tuples(st.just("put"), keys, vals).map(list),
+                   st.tuples(st.just("get"), keys).map(list)]
+            if kind == "lrucache-ttl":  # ttl 2: entries written before the clock moved on are gone when merged
+                ops.append(st.sampled_from([["adv", 0.75], ["adv", 3.0]]))
+            script = draw(st.lists(st.one_of(*ops), max_size=8))
+            w = {"wkey": wk, "kind": kind, "cap": draw(st.sampled_from([1, 2, 3, 8])), "script": script}
+            if kind in ("detlru", "tsdet"):
+                w["ug"], w["up"] = draw(st.booleans()), draw(st.booleans())
+            workers.append(w)
         perm = draw(st.permutations(list(range(nworkers))))
         return {
-            "target": {"max": draw(st.sampled_from([0, 1, 2, 3, 8, 64])), "ttl": draw(st.sampled_from([0, 0, 2])),
+            "target": {"kind": draw(st.sampled_from(["lrucache", "lrucache", "det"])),
+                       "max": draw(st.sampled_from([0, 1, 2, 3, 8, 64])), "ttl": draw(st.sampled_from([0, 0, 2])),
                        "pre": draw(st.lists(st.tuples(keys, vals).map(list), max_size=3)),
                        "adv": draw(st.sampled_from([0.0, 0.75, 3.0])), "wrapped": draw(st.booleans())},
             "workers": workers, "perm": list(perm),
@@ -1411,26 +1910,43 @@ _WORDER = {"id": lambda w: (w,), "neg": lambda w: (-w,), "half": lambda w: (w //
 _KORDER = {"id": lambda k: (k,), "neg": lambda k: (-k,), "str": lambda k: str(k * 7 % 10) + str(k)}
 
 
+class _ContainerRaised(Exception):
+    pass
+
+
 def _build_worker(w):
-    from clematis.engine.cache import LRUCache, ThreadSafeCache
+    from clematis.engine.cache import LRUCache, ThreadSafeBytesCache, ThreadSafeCache
     from clematis.engine.util.lru_bytes import LRUBytes
     from clematis.engine.util.lru_det import DeterministicLRU
 
-    if w["kind"] == "lrucache":
+    kind = w["kind"]
+    clock = None
+    if kind == "lrucache":
         c = LRUCache(max_entries=w["cap"], ttl_s=0)
         put = c.put
-    elif w["kind"] == "tslru":
+    elif kind == "lrucache-ttl":
+        clock = Clock()
+        c = LRUCache(max_entries=w["cap"], ttl_s=2, time_fn=clock.time)
+        put = c.put
+    elif kind == "tslru":
         c = ThreadSafeCache(LRUCache(max_entries=w["cap"], ttl_s=0))
         put = c.put
-    elif w["kind"] == "lrubytes":
+    elif kind in ("lrubytes", "tsbytes"):
         c = LRUBytes(w["cap"], 0)
+        if kind == "tsbytes":
+            c = ThreadSafeBytesCache(c)
         put = lambda k, v: c.put(k, v, 1)
     else:
-        c = DeterministicLRU(w["cap"])
+        c = DeterministicLRU(w["cap"], update_on_get=w.get("ug", True), update_on_put=w.get("up", True))
+        if kind == "tsdet":
+            c = ThreadSafeCache(c)
         put = c.put
     for op in w["script"]:
         if op[0] == "put":
             put(op[1], op[2])
+        elif op[0] == "adv":
+            if clock is not None:
+                clock.advance(op[1])
         else:
             c.get(op[1])
     return c
@@ -1438,40 +1954,62 @@ def _build_worker(w):
 
 def _build_target(t):
     from clematis.engine.cache import LRUCache, ThreadSafeCache
+    from clematis.engine.util.lru_det import DeterministicLRU
 
     clock = Clock()
-    inner = LRUCache(max_entries=t["max"], ttl_s=t["ttl"], time_fn=clock.time)
-    ref = RefLRUCache(t["max"], t["ttl"], clock.ref_time)
+    if t.get("kind", "lrucache") == "det":
+        inner = DeterministicLRU(t["max"])
+        ref = RefDetLRU(t["max"], True, True)
+    else:
+        inner = LRUCache(max_entries=t["max"], ttl_s=t["ttl"], time_fn=clock.time)
+        ref = RefLRUCacheb(t["max"], t["ttl"], clock.ref_time, ttl_inclusive())
     for k, v in t["pre"]:
         inner.put(k, v)
         ref.put(k, v)
-    clock.t += t["adv"]
+    clock.advance(t["adv"])
     return (ThreadSafeCache(inner) if t["wrapped"] else inner), inner, ref
+
+
+def _t_items(case, inner, ref):
+    """(implementation, reference) contents of the target, oldest->newest, without pruning or touching."""
+    if case["target"].get("kind", "lrucache") == "det":
+        return list(inner.items()), ref.items()
+    return list(inner._ns.items()), ref.ns.items()
 
 
 def _run_merge(case, order):
     from clematis.engine.cache import merge_caches_deterministic
 
-    target, inner, ref = _build_target(case["target"])
-    built = [(case["workers"][i]["wkey"], _build_worker(case["workers"][i])) for i in order]
-    before = [list(c.items()) for _, c in built]
+    try:
+        target, inner, ref = _build_target(case["target"])
+        built = [(case["workers"][i]["wkey"], _build_worker(case["workers"][i])) for i in order]
+        before = [list(c.items()) for _, c in built]
+    except Exception as e:  # noqa: BLE001 - plain puts/gets on the containers: reported, the sequence checks localise it
+        raise _ContainerRaised(f"{type(e).__name__}: {e}")
     raised = None
     try:
         merge_caches_deterministic(target, built, worker_order_key=_WORDER[case["worder"]],
                                    key_order_key=_KORDER[case["korder"]], on_conflict=case["on_conflict"])
     except AssertionError as e:
         raised = str(e)
+    except Exception as e:  # noqa: BLE001
+        raise _ContainerRaised(f"merge_caches_deterministic raised {type(e).__name__}: {e}")
     after = [list(c.items()) for _, c in built]
     return target, inner, ref, before, after, raised
 
 
 def check_merge(case, rec=None):
     order = list(range(len(case["workers"])))
-    target, inner, ref, before, after, raised = _run_merge(case, order)
     mode = case["on_conflict"]
 
     def bad(msg, sig):
         raise Violation(f"[merge] {msg}", case, f"merge:{sig}")
+
+    try:
+        target, inner, ref, before, after, raised = _run_merge(case, order)
+    except _ContainerRaised as e:
+        bad(f"building / merging the caches raised: {e}", "raises")
+    tkind = case["target"].get("kind", "lrucache")
 
     if before != after:
         bad(f"merge changed a worker cache: {before!r} -> {after!r}", "worker-mutated")
@@ -1487,31 +2025,35 @@ def check_merge(case, rec=None):
         ref_raised = True
     total_keys = len({k for kvs in before for k, _ in kvs} | {k for k, _ in case["target"]["pre"]})
     roomy = case["target"]["max"] >= total_keys
-    got_items = list(inner._ns.items())
+    got_items, want_items = _t_items(case, inner, ref)
     if mode == "first_wins":
-        _m = None
-        if got_items != ref.ns.items():
-            bad(f"target after merge {got_items!r} != reference (sorted workers, sorted keys, first wins) {ref.ns.items()!r}", "result")
-        if inner.stats["evicted"] != ref.evicted:
+        if got_items != want_items:
+            bad(f"target after merge {got_items!r} != reference (sorted workers, sorted keys, first wins) {want_items!r}", "result")
+        if tkind == "lrucache" and inner.stats["evicted"] != ref.evicted:
             bad(f"target evicted {inner.stats['evicted']} entries, reference {ref.evicted}", "result")
     elif roomy:
         if (raised is not None) != ref_raised:
             bad(f"assert_equal: implementation {'raised' if raised is not None else 'did not raise'}, but a conflicting "
                 f"later value {'exists' if ref_raised else 'does not exist'}", "assert-equal")
-        if raised is None and dict(got_items) != dict(ref.ns.items()):
-            bad(f"target after merge {dict(got_items)!r} != reference {dict(ref.ns.items())!r}", "result")
-    if len(inner) > max(0, case["target"]["max"]):
-        bad(f"target holds {len(inner)} > max_entries={case['target']['max']}", "bound-entries")
+        if raised is None and dict(got_items) != dict(want_items):
+            bad(f"target after merge {dict(got_items)!r} != reference {dict(want_items)!r}", "result")
+    nstored = len(inner._map) if tkind == "det" else len(inner)
+    if nstored > max(0, case["target"]["max"]):
+        bad(f"target holds {nstored} > max_entries={case['target']['max']}", "bound-entries")
 
     # independence of the worker list order
     okeys = [_WORDER[case["worder"]](w["wkey"]) for w in case["workers"]]
     distinct = len(set(okeys)) == len(okeys)
     if distinct and case["perm"] != order:
-        _t2, inner2, _r2, _b2, _a2, raised2 = _run_merge(case, case["perm"])
+        try:
+            _t2, inner2, ref2, _b2, _a2, raised2 = _run_merge(case, case["perm"])
+        except _ContainerRaised as e:
+            bad(f"building / merging the caches raised: {e}", "raises")
         if (raised is None) != (raised2 is None):
             bad(f"raising depends on the order of the worker list (perm {case['perm']})", "list-order")
-        if raised is None and list(inner2._ns.items()) != got_items:
-            bad(f"result depends on the order of the worker list: {got_items!r} vs {list(inner2._ns.items())!r} "
+        got2 = _t_items(case, inner2, ref2)[0]
+        if raised is None and got2 != got_items:
+            bad(f"result depends on the order of the worker list: {got_items!r} vs {got2!r} "
                 f"(perm {case['perm']})", "list-order")
 
     if rec is not None:
@@ -1525,10 +2067,16 @@ def check_merge(case, rec=None):
             for k, v in kvs:
                 vals.setdefault(k, set()).add(v)
         conflict = any(len(s) >= 2 for s in vals.values())
-        labels = [mode, "roomy" if roomy else "evicting-target"] + (["shared-key"] if shared else []) + \
+        wk = [w["wkey"] for w in case["workers"]]
+        labels = [mode, "roomy" if roomy else "evicting-target", f"target={tkind}"] + (["shared-key"] if shared else []) + \
                  (["conflict-values"] if conflict else []) + (["raised"] if raised is not None else []) + \
                  (["permuted"] if distinct and case["perm"] != order else []) + (["order-ties"] if not distinct else []) + \
-                 (["pre-populated"] if case["target"]["pre"] else [])
+                 (["pre-populated"] if case["target"]["pre"] else []) + \
+                 (["none-value"] if any(v is None for kvs in before for _, v in kvs) else []) + \
+                 (["dup-worker-id"] if len(set(wk)) != len(wk) else []) + \
+                 sorted({f"worker={w['kind']}" for w in case["workers"]}) + \
+                 (["worker-expired-entries"] if any(w["kind"] == "lrucache-ttl" and any(o[0] == "adv" for o in w["script"])
+                                                    for w in case["workers"]) else [])
         rec.case(nontrivial=shared, dig=digest(case) if shared else None, labels=labels,
                  sample={"workers": before, "target": case["target"], "mode": mode} if shared and conflict else None)
 
@@ -1542,15 +2090,106 @@ def replay_merge(case):
 
 
 # =================================================================================================
+# the clock injection helpers (logical_now_s -> holder -> logical_time_fn)
+# =================================================================================================
+
+
+def _clock_rows():
+    rows = []
+    for n in (0, 1, 999, 1000, 1500, 2250, -250, 315532800000, 10 ** 12 + 1):
+        rows.append({"fn": "now_s", "how": "int", "v": n})
+        rows.append({"fn": "now_s", "how": "call", "v": n})
+    for x in (0.0, 0.5, 750.0, 1500.25, -0.0):
+        rows.append({"fn": "now_s", "how": "float", "v": x})
+        rows.append({"fn": "now_s", "how": "call", "v": x})
+    rows.append({"fn": "now_s", "how": "absent"})
+    rows.append({"fn": "now_s", "how": "none"})
+    for v in (0, 0.0, 1, 2.25, -1.5, 1.7e9):
+        rows.append({"fn": "time_fn", "key": None, "v": v})
+        rows.append({"fn": "time_fn", "key": "logical", "v": v})
+    rows.append({"fn": "time_fn", "key": None, "v": 5.0, "then": 0.0})  # the holder is re-read on every call
+    rows.append({"fn": "time_fn", "key": "logical", "v": 0, "then": 7})
+    rows.append({"fn": "time_fn", "key": None, "missing": True})
+    return rows
+
+
+def check_clock_row(row):
+    """Raises Violation. Only what the docstrings state: logical_now_s == ctx.now_ms (value or callable) in seconds,
+    None when the context carries none; logical_time_fn reads holder[key] as stored last (0 included) and falls back
+    to the wall clock (some float - the value is not looked at) only when there is none."""
+    from clematis.engine.cache import logical_now_s, logical_time_fn
+
+    def bad(msg, sig):
+        raise Violation(f"[clock] {row}: {msg}", row, f"clock:{sig}")
+
+    try:
+        if row["fn"] == "now_s":
+            how = row["how"]
+            if how == "absent":
+                got, want = logical_now_s(types.SimpleNamespace()), None
+            elif how == "none":
+                got, want = logical_now_s(types.SimpleNamespace(now_ms=None)), None
+            else:
+                v = row["v"]
+                got = logical_now_s(types.SimpleNamespace(now_ms=(lambda: v) if how == "call" else v))
+                want = float(v) / 1000.0
+            if got != want or (want is not None and not isinstance(got, float)):
+                bad(f"logical_now_s -> {got!r}, expected {want!r}", "now_s")
+            return
+        holder = {"now_s": 123.0, "logical": 456.0, "other": 789.0}
+        key = row["key"]
+        fn = logical_time_fn(holder) if key is None else logical_time_fn(holder, key)
+        slot = key or "now_s"
+        if row.get("missing"):
+            del holder[slot]
+            got = fn()
+            if not isinstance(got, float):
+                bad(f"without a logical time the clock returned {got!r} (not a float)", "time_fn")
+            holder[slot] = None
+            got = fn()
+            if not isinstance(got, float):
+                bad(f"with logical time None the clock returned {got!r} (not a float)", "time_fn")
+            return
+        for v in [row["v"]] + ([row["then"]] if "then" in row else []):
+            holder[slot] = v
+            got = fn()
+            if got != float(v) or not isinstance(got, float):
+                bad(f"holder[{slot!r}] = {v!r} but the clock reads {got!r}", "time_fn")
+    except Violation:
+        raise
+    except Exception as e:  # noqa: BLE001 - the helpers are total on these inputs
+        bad(f"raised {type(e).__name__}: {e}", "raises")
+
+
+def sub_clock(rec, seed, shard, nshards):
+    for i, row in enumerate(_clock_rows()):
+        if i % nshards != shard:
+            continue
+        try:
+            check_clock_row(row)
+        except Violation as v:
+            rec.violation(v.message, v.case, v.sig)
+            return
+        zero = row.get("v", 1) == 0
+        rec.case(nontrivial=True, dig=None, labels=[f"clock.{row['fn']}"] + (["clock.zero"] if zero else [])
+                 + ([f"clock.{row['how']}"] if "how" in row else []) + (["clock.custom-key"] if row.get("key") else []))
+
+
+def replay_clock(case):
+    check_clock_row(case)
+
+
+# =================================================================================================
 
 SUBCHECKS = [
     Sub("exhaustive", sub_exhaustive, quick={"nkeys": 3, "depth": 20}, thorough={"nkeys": 4, "depth": 24, "max_states": 2000000, "deep": True},
-        shards_quick=4, shards_thorough=16, exhaustive=True, replay=replay_sequence),
-    Sub("machines", sub_machines, quick={"n": 10, "steps": 200}, thorough={"n": 80, "steps": 200},
-        shards_quick=4, shards_thorough=16, replay=replay_sequence),
+        shards_quick=6, shards_thorough=16, exhaustive=True, replay=replay_sequence),
+    Sub("machines", sub_machines, quick={"n": 7, "steps": 200}, thorough={"n": 80, "steps": 200},
+        shards_quick=6, shards_thorough=16, replay=replay_sequence),
     Sub("threads", sub_threads, quick={"rounds": 250}, thorough={"rounds": 1500}, shards_quick=4, shards_thorough=16,
         replay=replay_threads),
     Sub("merge", sub_merge, quick={"n": 400}, thorough={"n": 4000}, shards_quick=2, shards_thorough=8, replay=replay_merge),
+    Sub("clock", sub_clock, quick={}, thorough={}, shards_quick=1, shards_thorough=1, exhaustive=True, replay=replay_clock),
 ]
 
 KNOWN_PROBES = {}
